@@ -79,7 +79,16 @@ where
         PRECISION_MUST_BE_NONZERO: PRECISION > 0;
     );
 
-    if probabilities.len() < 2 || probabilities.len() > Probability::max_value().as_() {
+    // We can't assign a nonzero probability to more than `2^PRECISION` symbols.
+    let max_len = if PRECISION < <usize as BitArray>::BITS {
+        1usize << PRECISION
+    } else {
+        usize::MAX
+    };
+    if probabilities.len() < 2
+        || probabilities.len() > max_len
+        || probabilities.len() > Probability::max_value().as_()
+    {
         return Err(());
     }
 
